@@ -210,7 +210,7 @@ def tpcds_inputs() -> list[dict]:
 
 def risky(g, tag: str) -> dict:
     """Shapes with several equal-rank candidates in one set."""
-    kind = g.choice(["unqualified_many", "wildcard_disjoint", "drop_rename_mix", "multi_rename", "many_tables", "many_targets", "consumption_variants"])
+    kind = g.choice(["unqualified_many", "wildcard_disjoint", "drop_rename_mix", "multi_rename", "many_tables", "many_targets", "consumption_variants", "repeated_target", "repeated_target"])
     meta = None
     dialect = g.choice(["ansi", "non-validating"])
     if kind == "unqualified_many":
@@ -246,6 +246,32 @@ def risky(g, tag: str) -> dict:
             y = g.choice([n for n in names + ["e", "f"] if n != x])
             pairs.append(f"{x} TO {y}")
         sql = ";\n".join(pre + ["RENAME TABLE " + ", ".join(pairs)])
+    elif kind == "repeated_target":
+        # the same table written three or more times in one script, positionally and with column lists: whatever the
+        # session remembers about the table between the writes (and in which ORDER) decides the later mappings
+        dialect = g.choice(["ansi", "ansi", "non-validating"])
+        k = g.choice([2, 3, 4])
+        nsrc = g.choice([3, 4])
+        meta = {f"m.s{i}": [f"s{i}c{j}" for j in range(k + 1)] for i in range(nsrc)}
+        if g.random() < 0.3:
+            meta["m.fact"] = [f"f{j}" for j in range(k)]
+        stmts = []
+        for i in range(nsrc):
+            cols = [f"s{i}c{j}" for j in range(k)]
+            form = g.random()
+            if form < 0.45 or i == 0:
+                sel = ", ".join(f"{c} AS n{j}" if i == 0 or g.random() < 0.5 else c for j, c in enumerate(cols))
+                stmts.append(f"INSERT INTO m.fact SELECT {sel} FROM m.s{i}")
+            elif form < 0.7:
+                names = ", ".join(f"n{j}" for j in g.sample(range(k), k))
+                stmts.append(f"INSERT INTO m.fact ({names}) SELECT {', '.join(cols)} FROM m.s{i}")
+            elif form < 0.85:
+                stmts.append(f"INSERT INTO m.fact SELECT * FROM m.s{i}")
+            else:
+                stmts.append(f"CREATE TABLE m.fact AS SELECT {', '.join(cols)} FROM m.s{i}")
+        if g.random() < 0.5:
+            stmts.append("INSERT INTO m.final SELECT * FROM m.fact")
+        sql = ";\n".join(stmts)
     elif kind == "consumption_variants":
         # the same definition of a table, consumed downstream in different ways; the sibling (analysed first in the
         # warm-process world) is another variant over the very same names
@@ -332,7 +358,10 @@ def search(pool, tier: str, seed: int, deadline: float, agg: Agg) -> None:
 
     mod = sys.modules[__name__]
     skip = known_ids([e for e in load_known(ID)])
-    inputs = corpus_inputs() + tpcds_inputs() + generated_inputs(seed, {"quick": 300, "thorough": 3000}[tier])
+    tp = tpcds_inputs()
+    if tier == "quick":  # a third of the (heavy) TPC-DS queries per seed
+        tp = [x for i, x in enumerate(tp) if (i + seed) % 3 == 0]
+    inputs = corpus_inputs() + tp + generated_inputs(seed, {"quick": 300, "thorough": 3000}[tier])
     seen = set()
     uniq = []
     for inp in inputs:
